@@ -122,5 +122,14 @@ export function skeleton(node) {
 }
 export { showValue }
 
+/** all component instances named `c` in document order */
+export function findChildren(node, out = []) {
+  for (const n of node.childNodes || []) {
+    if (n instanceof ge.Component && n.is === 'c') out.push(n)
+    findChildren(n, out)
+  }
+  return out
+}
+
 export function takeWarnings() { const w = warnings.slice(); warnings.length = 0; return w }
 export { ge }
